@@ -104,6 +104,19 @@ def gen_subject(ch, sid, tier, chosen):
                        "prefixes")
     src = gen_unit(ch, profile, fn_prefix=fnp, glob_prefix=glp,
                    pointers=bool(ch.chance(1, 2, "pointers")))
+    if ch.chance(1, 10, "cerror"):
+        # a translation unit with an error somewhere (diagnosed, no object):
+        # an earlier *failed* compilation is history for the later ones
+        lines = src.split("\n")
+        tops = [k for k, l in enumerate(lines) if l.startswith(("int ",
+                                                                 "static "))]
+        bad = ch.pick(["int broken(int a) { return undefined_name + a; }",
+                       "int broken(int a) { return a +; }",
+                       "int broken(int a) { int a; return a; }",
+                       "struct nosuch broken_var = 3;"], "cerrkind")
+        at = ch.pick(tops, "cerrpos") if tops else len(lines)
+        lines.insert(at, bad)
+        src = "\n".join(lines)
     ops = []
     for t in chosen:
         if len(chosen) > 1 and ch.chance(1, 4, "skiptarget"):
@@ -177,6 +190,9 @@ def gen_asm_generic(ch):
             if ch.chance(1, 3, "gglobal"):
                 lines.append(f"global {name}")
             lines.append(f"{name}:")
+            if ch.chance(1, 12, "gasmerror"):
+                lines.append(ch.pick(["repeat 3", "bogus_mnemonic 1, 2",
+                                      "dd", "endrepeat"], "gerrline"))
             if ch.chance(1, 4, "grepeat"):
                 # assembler macro state (recording / repeat count)
                 lines.append(f"repeat {1 + ch.draw(4, 'grepn')}")
